@@ -594,6 +594,18 @@ def solve_static(ob, workdir):
     Discharged by the compiler (clang++ and g++), reported separately, never counted as a proved obligation."""
     r = Result(ob)
     d = os.path.join(workdir, san(ob.id)); os.makedirs(d, exist_ok=True)
+    if ob.dfcc and ob.dfcc.get('tool') == 'lean':
+        # a mathematical lemma the contracts lean on, machine-checked by Lean 4 + Mathlib (supporting fact, not counted)
+        t0 = time.time()
+        rc, out, err, dt = run(['lean', ob.dfcc['file']], timeout=ob.budget, mem_kb=32 * 1024 * 1024)
+        r.seconds = time.time() - t0; r.backend = 'lean 4 + Mathlib'; r.n_props = 1; r.canary = True
+        if rc == 0 and 'error' not in out and 'sorry' not in out:
+            r.status = 'proved'
+        elif rc is None:
+            r.status = 'undecided'; r.detail = 'lean timed out'
+        else:
+            r.status = 'failed'; r.failed_props = ['LEMMA:lean rejected %s' % ob.dfcc['file']]; r.log = (out + err)[-2000:]
+        return r
     src = os.path.join(d, 'probe.cc')
     open(src, 'w').write(ob.body)
     t0 = time.time()
